@@ -1,5 +1,6 @@
 import KoordVerif.Model.C13
 import KoordVerif.Model.C13Handle
+import KoordVerif.Model.C13Status
 /-
 C13 — property theorems (DESIGN.md §4 C13).  Quantities are nano-unit integers; CPU amounts
 "in milli-cores" are `milliValue q` (round up, as Quantity.MilliValue()).
@@ -1541,6 +1542,66 @@ example :
     handleValidating stdRanges plainUpdate terminating false (exPod QoS.be 5500) (exPod QoS.be 7500) = false ∧
     handleValidating stdRanges plainUpdate terminating false (exPod QoS.be 5500) (exPod QoS.be 5500) = true ∧
     handleValidating stdRanges { plainUpdate with subresource := true } terminating false (exPod QoS.ls 5500) (exPod QoS.be 5500) = true := by
+  decide
+
+/-! ### in-place resize: the verdict is about the SPEC (ext6) -/
+
+/-- util.GetPodRequest sets no option: the pod is read as declared. -/
+theorem statusView_off (s : ResizeStatus) (p : Pod) : statusView getPodRequestUsesStatus s p = p := rfl
+
+/-- whatever status.containerStatuses[].resources / allocatedResources / resize conditions a pod carries, the
+    colocation validator decides as on the pod without them ... -/
+theorem validate_reads_spec (k : Ranges) (gate : Bool) (op : Nat) (old new : Pod) (s : ResizeStatus) :
+    validateAllowedSt k getPodRequestUsesStatus gate op old new s = validateAllowed k gate op old new := rfl
+
+/-- ... hence by the full decision table over the DECLARED requests ... -/
+theorem admit_iff_with_status (k : Ranges) (gate : Bool) (op : Nat) (old new : Pod) (s : ResizeStatus) :
+    validateAllowedSt k getPodRequestUsesStatus gate op old new s = true ↔ Admissible k gate op old new :=
+  admit_iff k gate op old new
+
+/-- ... and so does the entry point. -/
+theorem handleValidating_status_irrelevant (k : Ranges) (e : Envelope) (sh : ObjShape) (gate : Bool) (old new : Pod)
+    (s s' : ResizeStatus) :
+    handleValidatingSt k e sh getPodRequestUsesStatus gate old new s = handleValidatingSt k e sh getPodRequestUsesStatus gate old new s' ∧
+    handleValidatingSt k e sh getPodRequestUsesStatus gate old new s = handleValidating k e sh gate old new := ⟨rfl, rfl⟩
+
+/-- With the option ON a pod without container statuses (every CREATE of a new pod) is still read as declared:
+    the option only matters for running pods. -/
+theorem statusView_no_entries (b : Bool) (cond : Nat) (pl : Option (RL × RL)) (p : Pod) :
+    statusView b { cond := cond, ctrs := [], podLevel := pl } p = p := by
+  cases b
+  · rfl
+  · have h : ∀ c : Ctr, effectiveRequests { cond := cond, ctrs := [], podLevel := pl } c = c.req := fun c => rfl
+    simp only [statusView, if_true, h]
+    have e1 : p.ctrs.map (fun c => ({ c with req := c.req } : Ctr)) = p.ctrs := by
+      induction p.ctrs with
+      | nil => rfl
+      | cons a t ih => simp only [List.map_cons, ih]
+    have e2 : p.inits.map (fun c => if c.sidecar then ({ c with req := c.req } : Ctr) else c) = p.inits := by
+      induction p.inits with
+      | nil => rfl
+      | cons a t ih => simp only [List.map_cons, ih]; cases a.sidecar <;> rfl
+    rw [e1, e2]
+
+/-- an LSR / prod pod declaring 1.5 CPUs -/
+def rzPod (q : QoS) (cpu : Int) (batch : Option Int) : Pod :=
+  { labels := Labels.empty.set LKey.qos (qosName q), priority := some 9500, subPrio := none, statusQoS := 0, inits := [],
+    ctrs := [{ name := 0, req := fun r => if r = Res.cpu then some cpu else if r = Res.batchCPU then batch else none, lim := RL.empty }],
+    overhead := none, annot := Annot.absent }
+
+/-- the kubelet reports 2 CPUs for container 0 -/
+def rzUp : ResizeStatus := { cond := 0, ctrs := [{ name := 0, actuated := some (RL.empty.set Res.cpu 2000000000), allocated := RL.empty }] }
+/-- resize marked Infeasible, container 0 reports empty resources -/
+def rzEmptyInfeasible : ResizeStatus := { cond := 2, ctrs := [{ name := 0, actuated := some RL.empty, allocated := RL.empty }] }
+
+/-- `getPodRequestUsesStatus = false` is needed: were UseStatusResources passed, an UPDATE of an LSR pod declaring
+    1.5 CPUs would be admitted because its status reports 2, and an LS pod declaring batch-cpu because the resize is
+    Infeasible and the status reports nothing — neither is Admissible. -/
+theorem status_option_counterexample :
+    (validateAllowedSt stdRanges true false 1 (rzPod QoS.lsr 1500000000 none) (rzPod QoS.lsr 1500000000 none) rzUp = true ∧
+     validateAllowed stdRanges false 1 (rzPod QoS.lsr 1500000000 none) (rzPod QoS.lsr 1500000000 none) = false) ∧
+    (validateAllowedSt stdRanges true false 1 (rzPod QoS.ls 2000000000 (some 1000000000000)) (rzPod QoS.ls 2000000000 (some 1000000000000)) rzEmptyInfeasible = true ∧
+     validateAllowed stdRanges false 1 (rzPod QoS.ls 2000000000 (some 1000000000000)) (rzPod QoS.ls 2000000000 (some 1000000000000)) = false) := by
   decide
 
 end KoordVerif.C13
